@@ -96,6 +96,27 @@ func (m *MatchTLS) Match(cx *layer4.Connection) (bool, error) {
 		return false, err
 	}
 
+	// A handshake message may be fragmented over several records (RFC 8446, section 5.1).
+	// TLS servers reassemble it, so the remaining fragments of a ClientHello have to be
+	// collected before parsing; otherwise SNI, ALPN etc. are lost and the matcher
+	// decides on an incomplete hello.
+	const typeClientHello = 1
+	for len(rawHello) > 0 && rawHello[0] == typeClientHello &&
+		(len(rawHello) < 4 || len(rawHello) < 4+(int(rawHello[1])<<16|int(rawHello[2])<<8|int(rawHello[3]))) {
+		if _, err = io.ReadFull(cx, hdr); err != nil {
+			return false, err
+		}
+		fragmentLength := int(uint16(hdr[3])<<8 | uint16(hdr[4]))
+		if hdr[0] != recordTypeHandshake || fragmentLength == 0 {
+			return false, nil
+		}
+		fragment := make([]byte, fragmentLength)
+		if _, err = io.ReadFull(cx, fragment); err != nil {
+			return false, err
+		}
+		rawHello = append(rawHello, fragment...)
+	}
+
 	// parse the ClientHello
 	chi := parseRawClientHello(rawHello)
 	chi.Conn = cx
